@@ -152,7 +152,7 @@ pub fn alphabet(table: &Table, f: &FieldDef, budget: usize) -> Vec<Val> {
                         if !valid_date(y, m, d) {
                             continue;
                         }
-                        for (h, mi, s) in [(0, 0, 0), (9, 5, 7), (23, 59, 59)] {
+                        for (h, mi, s) in [(0, 0, 0), (9, 5, 7), (23, 59, 59), (10, 0, 0), (23, 0, 22), (12, 30, 0)] {
                             out.push(Val::Dt(y, m, d, h, mi, s));
                         }
                     }
